@@ -84,6 +84,46 @@ func (fv *FuncVC) native(v ssa.Value, f *ssa.Function, cc *ssa.CallCommon, args 
 		return false
 	}
 	switch name {
+	case "(*sync.Pool).Get", "(*sync.Pool).Put":
+		// only pools declared with `//@ pool <global> <type>`
+		var g *ssa.Global
+		if u, ok := cc.Args[0].(*ssa.UnOp); ok {
+			g, _ = u.X.(*ssa.Global)
+		}
+		if g == nil {
+			return false
+		}
+		tn, ok := fv.P.CS.Pools[g.Pkg.Pkg.Path()+"."+g.Name()]
+		if !ok {
+			return false
+		}
+		env := fv.newEnv(fv.cur, fv.entry)
+		env.pkgOverride = g.Pkg.Pkg.Path()
+		gt := env.lookupType(tn)
+		trust("sync.Pool " + g.Name() + " holds only non-nil " + tn + " values and hands each to one owner at a time (its New function and every Put are checked to supply that type)")
+		okey := "owned." + structName(gt.(*types.Pointer).Elem())
+		h := fv.heapTerm(fv.cur, okey, SBool)
+		if strings.HasSuffix(name, "Get") {
+			r := fv.fresh("pooled", SRef)
+			r.Go = gt
+			a := fv.ghostTerm(fv.cur, "alloc", SMath)
+			na := fv.fresh("G_alloc_get", SMath)
+			fv.assert(smtAnd(app(">", r.S, "0"), app(">=", na.S, a.S), app("<=", r.S, na.S)))
+			fv.cur.ghost["alloc"] = na
+			// exclusive: nobody owned it while it sat in the pool
+			fv.assume(smtNot(app("select", h.S, r.S)))
+			fv.cur.heap[okey] = Term{S: app("store", h.S, r.S, "true"), Sort: SBool}
+			fv.setResult(v, []Val{{T: Term{S: fmt.Sprintf("(mk_Iface %d %s)", fv.tagOf(gt), r.S), Sort: SIface, Go: rts[0]}}})
+			return true
+		}
+		x := fv.asTerm(args[1], ats[1])
+		fv.oblige("pool", "put-type", nil, pos, smtAnd(app("=", app("Iface_tag", x.S), fmt.Sprint(fv.tagOf(gt))), smtNot(app("=", app("Iface_ref", x.S), "0"))), "only non-nil "+tn+" values are put into "+g.Name())
+		if fv.C != nil && fv.C.Flags["ownership"] != "" {
+			fv.oblige("owned", "put", nil, pos, app("select", h.S, app("Iface_ref", x.S)), "the object returned to the pool is owned by the caller")
+		}
+		fv.cur.heap[okey] = Term{S: app("store", h.S, app("Iface_ref", x.S), "false"), Sort: SBool}
+		fv.setResult(v, nil)
+		return true
 	case "(*sync.Mutex).Lock", "(*sync.Mutex).Unlock":
 		trust("sync.Mutex: Lock/Unlock give mutual exclusion; ghost held(mu)")
 		key, ref := fv.mutexKey(args[0])
